@@ -32,6 +32,18 @@ where
     }
 }
 
+/// Verification hook: observe the carried strip state
+#[cfg(any(kani, rust_cli_anstyle_verif))]
+impl<S> StripStream<S>
+where
+    S: std::io::Write,
+{
+    #[doc(hidden)]
+    pub fn verif_state(&self) -> &StripBytes {
+        &self.state
+    }
+}
+
 impl<S> StripStream<S>
 where
     S: std::io::Write,
